@@ -16,6 +16,23 @@ from .interp import Module, load_module, State, Obligation, Contract, Ctx
 MAX_UNROLL = 64
 
 
+COLLECTIVES = {'reduce', 'Reduce', 'gather', 'Gatherv', 'bcast', 'Bcast', 'allreduce', 'Alltoall', 'Allgather', 'Barrier', 'Split',
+               'Create_cart', 'Sub', 'allgather', 'scatter'}
+
+
+def has_collective(node):
+    for n in ast.walk(node):
+        if isinstance(n, ast.Attribute) and n.attr in COLLECTIVES:
+            return True
+        if isinstance(n, ast.Call) and isinstance(n.func, (ast.Name, ast.Attribute)):
+            nm = n.func.id if isinstance(n.func, ast.Name) else n.func.attr
+            if nm in ('transpose', '_transpose', '_transpose_source_intact', 'setLayout', 'getLayoutHandler', 'LayoutHandler',
+                      'LayoutSwapper', '_extract_from_source', '_rearrange_from_buffer', 'getMin', 'getMax', 'getBlockForFig',
+                      'setupSave'):
+                return True
+    return False
+
+
 class Frame:
     def __init__(self, module, qual, node, contract, depth=0):
         self.module = module
@@ -198,6 +215,8 @@ class Exec(BufMixin):
         return i
 
     def subscript(self, st, fr, base, idx, node):
+        if isinstance(base, V.Opaque) or isinstance(idx, V.Opaque) or (isinstance(idx, tuple) and any(isinstance(i, V.Opaque) for i in idx)):
+            return V.Opaque()
         r = self.buf_subscript(st, fr, base, idx, node)
         if r is not NotImplemented:
             return r
@@ -493,8 +512,25 @@ class Exec(BufMixin):
     def ev(self, e, st, fr):
         m = getattr(self, 'ev_' + type(e).__name__, None)
         if m is None:
+            if self.trace_mode(fr) and not has_collective(e):
+                return V.Opaque()
             raise OutOfReach('expression %s at line %s' % (type(e).__name__, getattr(e, 'lineno', '?')))
+        if self.trace_mode(fr) and not fr.spec_only:
+            # trace abstraction (C06): anything that is not modelled becomes opaque, unless a collective is involved
+            try:
+                return m(e, st, fr)
+            except OutOfReach:
+                if has_collective(e):
+                    raise
+                return V.Opaque()
+            except (TypeError, AttributeError, KeyError, IndexError, ValueError) as ex:
+                if has_collective(e):
+                    raise OutOfReach('trace mode: %r' % (ex,))
+                return V.Opaque()
         return m(e, st, fr)
+
+    def trace_mode(self, fr):
+        return fr is not None and getattr(self.ctx, 'trace_mode', False)
 
     def ev_Constant(self, e, st, fr):
         v = e.value
@@ -556,6 +592,10 @@ class Exec(BufMixin):
 
     def ev_UnaryOp(self, e, st, fr):
         v = self.ev(e.operand, st, fr)
+        if isinstance(v, V.Opaque):
+            if isinstance(e.op, ast.Not):
+                return b_not(truth(v))
+            return v
         if isinstance(e.op, ast.USub):
             if self.is_arr(v):
                 f = self.elem_fn(st, v)
@@ -575,6 +615,8 @@ class Exec(BufMixin):
         return self.do_binop(type(e.op).__name__, a, b, st, fr, e)
 
     def do_binop(self, opn, a, b, st, fr, node):
+        if isinstance(a, V.Opaque) or isinstance(b, V.Opaque):
+            return V.Opaque()
         if self.is_arr(a) or self.is_arr(b):
             def ob(kind, cond):
                 pass  # elementwise division: obligations are generated on materialisation only for scalars
@@ -637,6 +679,10 @@ class Exec(BufMixin):
         return b_and(*res) if len(res) > 1 else res[0]
 
     def do_compare(self, opn, a, b, st, fr, node):
+        if isinstance(a, V.Opaque) or isinstance(b, V.Opaque):
+            if opn in ('Is', 'IsNot') and (a is None or b is None):
+                return opn == 'IsNot'
+            return V.Opaque()
         if opn in ('Is', 'IsNot'):
             r = self.buf_is(a, b)
             if r is not NotImplemented:
@@ -659,7 +705,10 @@ class Exec(BufMixin):
         return compare(opn, a, b)
 
     def ev_IfExp(self, e, st, fr):
-        c = truth(self.ev(e.test, st, fr))
+        tv = self.ev(e.test, st, fr)
+        if isinstance(tv, V.Opaque):
+            return V.Opaque()
+        c = truth(tv)
         if isinstance(c, bool):
             return self.ev(e.body if c else e.orelse, st, fr)
         st.pc.append(c)
@@ -687,6 +736,10 @@ class Exec(BufMixin):
         r = self.buf_attribute(st, fr, base, a, e)
         if r is not NotImplemented:
             return r
+        if isinstance(base, Obj) and base.cls[0] == '<mpi>':
+            return FunVal('mpi', a, base)
+        if isinstance(base, V.Opaque):
+            return V.Opaque()
         if self.is_arr(base):
             if a == 'shape':
                 return tuple(base.shape)
